@@ -653,8 +653,8 @@ func (r *srcRun) runEnv() {
 		if r.c.Garbage != "" {
 			text = r.c.Garbage
 		}
-		if !envSupports(l.Kind) {
-			text = "x"
+		if !envSupports(l.Kind) && text == "" {
+			text = "x" // (a kind without a text form; the others get their well-formed text although the source cannot take it)
 		}
 		prim := envName(l.Env, r.c.Prefix)
 		if f.SrcTag {
